@@ -61,6 +61,10 @@ func (dv *defaultVerifierSimple) verifyRoot(root *Node) ([]string, []string, err
 			dir := filepath.Join(dv.targetDir, root.path(), path)
 
 			if err != nil {
+				if errors.Is(err, fs.ErrNotExist) && path == "." {
+					// markdown上のrootが検査対象パスに無い: root配下の全パスを下で「無い」として報告する
+					return fs.SkipAll
+				}
 				if errors.Is(err, fs.ErrNotExist) {
 					// markdown上のrootが検査対象パスに無いとエラー
 					return verifyError{noExists: []string{dir}}
